@@ -96,6 +96,29 @@ type parser struct {
 	funcEffect a.Effect
 	loops      a.LoopStack
 	allowVar   bool
+	depth      uint32
+}
+
+// maxDepth bounds the recursion of this recursive descent parser. It is well
+// above what the checker later allows (a.MaxExprDepth, a.MaxTypeExprDepth and
+// a.MaxBodyDepth combined), so that it rejects only input that no later stage
+// would accept.
+const maxDepth = 2048
+
+// enter is called on entering (and leave on leaving) the mutually recursive
+// parsing methods, so that pathologically nested input (millions of open
+// parentheses, unary operators, array types, etc) produces an ordinary error
+// instead of overflowing the goroutine stack.
+func (p *parser) enter() error {
+	p.depth++
+	if p.depth > maxDepth {
+		return fmt.Errorf(`parse: nesting is too deep at %s:%d`, p.filename, p.line())
+	}
+	return nil
+}
+
+func (p *parser) leave() {
+	p.depth--
 }
 
 func (p *parser) line() uint32 {
@@ -496,6 +519,10 @@ func (p *parser) parseFieldNode1(flags a.Flags) (*a.Node, error) {
 }
 
 func (p *parser) parseTypeExpr() (*a.TypeExpr, error) {
+	if err := p.enter(); err != nil {
+		return nil, err
+	}
+	defer p.leave()
 	if x := p.peek1(); x == t.IDNptr || x == t.IDPtr {
 		p.src = p.src[1:]
 		rhs, err := p.parseTypeExpr()
@@ -617,6 +644,10 @@ func (p *parser) parseBracket(sep t.ID) (op t.ID, ei *a.Expr, ej *a.Expr, err er
 }
 
 func (p *parser) parseBlock(doubleCurly bool) ([]*a.Node, error) {
+	if err := p.enter(); err != nil {
+		return nil, err
+	}
+	defer p.leave()
 	if doubleCurly {
 		if x := p.peek1(); x != t.IDOpenDoubleCurly {
 			got := p.tm.ByID(x)
@@ -1490,6 +1521,10 @@ func (p *parser) parseExpr1() (*a.Expr, error) {
 }
 
 func (p *parser) parseOperand() (*a.Expr, error) {
+	if err := p.enter(); err != nil {
+		return nil, err
+	}
+	defer p.leave()
 	switch x := p.peek1(); {
 	case x.IsUnaryOp():
 		p.src = p.src[1:]
